@@ -114,6 +114,15 @@ CLAIMS = {
             "reports, one open exchange per remote, eventual drain). Bounded model-based symbolic exploration, not a proof.",
             "SimLoop; fake token manager / message interface; 2 remotes; MAX_RETRANSMIT=1; reference model written from the property text",
             TECH_E1, "DESIGN.md 5 C14"),
+    "C06": ("Inductive step on the real Resource.render_to_pipe / Block1Spool / Block2Cache / TimeoutDict: from every pre-state (three "
+            "assemblies for endpoint/method/key combinations - incl. two endpoints that differ only in port - each absent, 1 or 2 "
+            "blocks long, built through the real API) one (thorough: two) block request with symbolic (selector, NUM, M, length "
+            "class) is answered as a reference reassembly model predicts (2.31 echo / 4.08 / 4.00 / handler body, never 5.xx) and "
+            "the spool content equals the model afterwards. Block2: body lengths around block boundaries x 3 requests by index, "
+            "exact slice of the latest block-0 rendering, one rendering per block-0 request. State lifetime with symbolic idle "
+            "times vs MAX_TRANSMIT_WAIT and twice that.",
+            "pipe-level driver (render_to_pipe + error_to_message) with real UDP6EndpointAddress remotes; SimLoop; size exponents 0 and 2; integer tuning",
+            TECH_E1, "DESIGN.md 5 C06"),
     "C07": ("Observe values (all 2^24), arrival instants, terminator kind and position are solver variables for sequences of 3/4 "
             "notifications fed to the real Request/ClientObservation; deliveries must equal exactly what the RFC 7641 3.4 formula "
             "selects relative to the last delivered (V,T); termination signalled exactly once with the right class. The same through "
